@@ -38,6 +38,9 @@
      cshift  a composite glyph is placed like a simple one: phantom point 1 at the origin
              (FALSE: composite glyphs are not shifted)
      umm     USE_MY_METRICS is honoured               (FALSE: the composite keeps its own metrics)
+   Equality of outlines (section 7) is up to representation -- start point of a closed contour,
+   atoms that draw nothing (closing lines of length zero, repeated points) -- and a tolerance;
+   it is defined twice, in rationals (for the laws) and on an integer grid (for the judge).
    ROUND_XY_TO_GRID asks the rasteriser to round the offset to the PIXEL grid; for the
    unhinted outline in font units it changes nothing (GridFit = FALSE); GridFit = TRUE gives
    the reading "round the varied offset to whole font units" for (M).                    *)
@@ -55,9 +58,6 @@ SCALED_OFFSET == 2048     UNSCALED_OFFSET == 4096
 MaxDepth == 6             \* nesting deeper than this is outside the modelled domain
 
 SpecOpts == [scaled |-> TRUE, cshift |-> TRUE, umm |-> TRUE, grid |-> FALSE]
-
-(* evaluate F on the VALUE of x (TLC may re-evaluate LET bodies; a bound variable is a value) *)
-With(F(_), x) == CHOOSE r \in {F(v) : v \in {x}} : TRUE
 
 (***************************************************************************)
 (* 1. Simple glyphs: contours as cyclic sequences of atoms                  *)
@@ -371,13 +371,16 @@ SameOutline(A, B, tol) ==
    equal when they differ by at most T units in x and in y: certainly when the true
    difference is <= (T - 1) / G, never when it is >= (T + 1) / G. *)
 GBad == MaxInt31
+(* the fractional part r/d with a denominator beyond 2^18 is first halved down (floor) until it
+   fits: r/d moves by less than 2^-16, i.e. by less than 1/16 grid unit for G <= 2^12 *)
+RECURSIVE ShrinkFrac(_, _)
+ShrinkFrac(r, d) == IF d <= 262144 THEN <<r, d>> ELSE LET r2 == r \div 2  d2 == d \div 2 IN ShrinkFrac(r2, d2)
 GridCoord(a, G) ==
   IF RBad(a) THEN GBad
   ELSE LET q == a[1] \div a[2]
-           r == a[1] % a[2]
-       IN IF ~MulFits(q, G) \/ ~MulFits(2 * G, r) THEN GBad
-          ELSE IF ~AddFits(2 * G * r, a[2]) \/ ~MulFits(2, a[2]) THEN GBad
-          ELSE LET rr == (2 * G * r + a[2]) \div (2 * a[2]) IN
+           f == ShrinkFrac(a[1] % a[2], a[2])
+       IN IF ~MulFits(q, G) \/ G > 4096 THEN GBad
+          ELSE LET rr == (2 * G * f[1] + f[2]) \div (2 * f[2]) IN
                IF AddFits(q * G, rr) THEN q * G + rr ELSE GBad
 GridAtom(a, G) == [i \in 1..Len(a) |-> <<GridCoord(a[i][1], G), GridCoord(a[i][2], G)>>]
 GridOutline(o, G) == TLCEval([k \in 1..Len(o) |-> TLCEval([j \in 1..Len(o[k]) |-> TLCEval(GridAtom(o[k][j], G))])])
